@@ -11,6 +11,7 @@
 import LccModel.Model.Loader
 import LccModel.Model.DirScan
 import LccModel.Model.ParamSource
+import LccModel.Model.ClassAttrs
 import LccModel.Generated.C13Tables
 
 namespace LccModel.Generated.C13
@@ -90,6 +91,14 @@ theorem scan_filter_agrees : ∀ r ∈ scanFilterTable, quad (DirScan.acceptsCha
 
 /-- `strip_py_ext` on every accepted name of the set: the suite is named after the file without its last three characters. -/
 theorem scan_stem_agrees : ∀ r ∈ scanStemTable, DirScan.stemChars r.1 = r.2 := by decide +kernel
+
+/-! ## The attribute scan of a suite object (`Model/ClassAttrs.lean`)
+
+  `propertyScanTable`: the real `helpers/introspection.get_object_attributes` on instances of classes whose MRO holds the
+  given `__dict__`s (built as an inheritance chain and as independent mixins): for every name of `dir()` whether the scan
+  yields it and whether a property getter was run for it.  A scan that recognises properties only in the class's own
+  `__dict__` (and so evaluates inherited ones), or stops skipping `__` names, breaks this obligation. -/
+theorem property_scan_agrees : ∀ r ∈ propertyScanTable, ClassAttrs.listedName r.1.1 r.1.2 = r.2 := by decide +kernel
 
 /-! ## The header of the CSV-like form of `@lcc.parametrized` (`Model/ParamSource.lean`)
 
